@@ -67,12 +67,28 @@ func genPager(t *rapid.T) pagerPage {
 	n := g.intn(2, 9, "pn")
 	k := g.intn(1, n, "pk")
 	kinds := map[string]bool{}
+	// two equally long runs of consecutive numbers around one gap, the reader on the first page, and
+	// a page URL that carries a parameter the pager links do not have: which run "wins" must not
+	// depend on anything but the page
+	tie := g.chance(6, "tie")
+	if tie {
+		n = 2*g.intn(2, 4, "tierun") + 1
+		k = 1
+		kinds["tie:two-equal-runs"] = true
+	}
 	otherHost := g.pick("ohost", "other.example.net", "example.com.evil.net", "evil-example.com")
 
 	cur := fam.link(base, k)
 	if g.chance(15, "bareurl") {
 		// the first page often has no page parameter
 		cur = strings.SplitN(fam.link(base, 1), "?", 2)[0]
+	}
+	if tie && !strings.Contains(cur, "#") {
+		if strings.Contains(cur, "?") {
+			cur += "&ref=home"
+		} else {
+			cur += "?ref=home"
+		}
 	}
 	hrefFor := func(kind string, i int) string {
 		switch kind {
@@ -161,6 +177,16 @@ func genPager(t *rapid.T) pagerPage {
 		}
 		if i == k && g.chance(80, "curplain") {
 			kind = g.pick("curk", "plain", "decorated")
+		}
+		if tie {
+			switch {
+			case i == 1:
+				kind = "plain"
+			case i == (n+1)/2:
+				kind = "gap"
+			default:
+				kind = "link"
+			}
 		}
 		kinds[kind] = true
 		label := strconv.Itoa(i)
